@@ -340,7 +340,7 @@ def Ast.toMan : Ast → Except PyErr (List ManNode)
   | .heading _ => .ok []
   | .sect cs =>
     match cs.find? Ast.isHeading with
-    | none => .error .assertionError                 -- "Section without heading"
+    | none => toManL cs                              -- a wrapper section without heading (step, collapsible): its content
     | some h =>
       match toManL cs with
       | .error e => .error e
